@@ -22,7 +22,7 @@ NS = "Pysersic.Props.C06."
 OBLIGATIONS = [NS + t for t in [
     "masked_invariant", "repo_sys_mean_over_good", "masked_invariant_no_sys", "masked_deriv_zero",
     "gaussian_data_matters", "gaussian_rms_matters", "cash_data_matters", "huber_data_matters", "polarity",
-    "agree_filter", "meanRms_agree",
+    "agree_filter", "meanRms_agree", "repo_mask_polarity", "repo_no_mask_all_used", "oneMinus_violates", "dataNonzero_violates",
 ]]
 # translated source text proved equal to the model definitions this property's theorems are about
 GEN_KERNELS = ["losses"]
